@@ -1032,3 +1032,112 @@ def replay(ctx, path):
         if rc: print("exit", rc, err[-800:])
     else:
         print(txt)
+
+
+# ---- C20: bookkeeping ---------------------------------------------------------------------------
+def growth_step():
+    m = re.search(r"vector->space\s*\+=\s*(\d+)", open(os.path.join(REPO, "src", "vector.c")).read())
+    return int(m.group(1)) if m else None
+
+
+def gen_vec_history(rng, step, target):
+    ops = []
+    size = 0
+    for i in range(target):
+        ops.append(f"a {i}"); size += 1
+    for _ in range(rng.choice([3, 10, 40])):
+        r = rng.random()
+        if r < 0.35 and size:
+            pos = rng.choice([0, size - 1, size // 2, rng.randrange(size)])
+            ops.append(f"r {pos}"); size -= 1
+        elif r < 0.5:
+            ops.append(f"a {1000 + len(ops)}"); size += 1
+        elif r < 0.8 and size:
+            ops.append(f"g {rng.choice([0, size - 1, rng.randrange(size)])}")
+        else:
+            ops.append(rng.choice([f"g {size}", f"r {size}", f"g {size + 5}", f"r {size + 1}"]))     # illegal positions: PANIC + NULL
+    return ops
+
+
+def check_C20(ctx):
+    lean_check(ctx)
+    rng = random.Random(ctx.seed * 1000 + 20)
+    step = growth_step()
+    ctx.oblige("the vector growth step is a positive constant read from src/vector.c (the theorems hold for every positive step)", bool(step) and step > 0, str(step))
+    impl = build_impl(ctx, asan=True)
+    exe = compile_harness(ctx, impl, "vec_ops", ["vec_ops.c"])
+    targets = sorted({0, 1, step - 1, step, step + 1, 2 * step - 1, 2 * step, 2 * step + 1, 3 * step, 3 * step + 1})
+    blocks = [gen_vec_history(rng, step, t) for t in targets for _ in range(sizes(ctx, 6, 60))]
+    # drain completely from the head / from the tail at exactly the boundaries
+    for t in (step, 2 * step):
+        blocks.append([f"a {i}" for i in range(t)] + ["r 0"] * t + ["r 0", "g 0"])
+        blocks.append([f"a {i}" for i in range(t)] + [f"r {t - 1 - i}" for i in range(t)])
+    inp = "".join("\n".join(b) + "\n---\n" for b in blocks)
+    r = subprocess.run([exe], input=inp.encode(), stdout=subprocess.PIPE, stderr=subprocess.PIPE, env=asan_env(), timeout=600)
+    impl_out = r.stdout.decode().split("---\n")
+    model_out = run_model(["vec", str(step)], inp).split("---\n")
+    if r.returncode != 0:
+        k = max(0, len(impl_out) - 1)
+        err = r.stderr.decode("latin-1")
+        ctx.violation(f"[C20] the vector crashed (exit {r.returncode}) in a history of {len(blocks[min(k, len(blocks)-1)])} operations: " +
+                      " ".join(l.strip() for l in err.split("\n") if "ERROR" in l or "SUMMARY" in l or l.strip().startswith("#0"))[:300],
+                      "# feed to harness/vec_ops (ASan)\n" + "\n".join(blocks[min(k, len(blocks) - 1)]), found_input=True, facts={"crash": True, "where": "vector"})
+    ndis = 0
+    for b, a, m in zip(blocks, impl_out, model_out):
+        if a != m:
+            ndis += 1
+            if ndis <= 3:
+                al, ml = a.split("\n"), m.split("\n")
+                i = next((i for i, (x, y) in enumerate(zip(al, ml)) if x != y), min(len(al), len(ml)))
+                ctx.oblige("correspondence C20 (vector)", False, f"op #{i} `{b[i] if i < len(b) else '?'}`: model `{ml[i] if i < len(ml) else None}` impl `{al[i] if i < len(al) else None}`")
+        if "OOB" in m:
+            ctx.oblige("the model itself reports no out-of-bounds access", False, m[:200])
+    ctx.oblige("correspondence C20: vector model and implementation agree on every history (results and sizes)", ndis == 0, f"{ndis} histories disagree")
+    nvec = len(blocks)
+    # ---- names, nesting, counts under every reporter, sanitizers on ----
+    bench = Bench(ctx, asan=True)
+    scens, labels = [], []
+    lengths = [1, 50, 90, 91, 92, 93, 99, 100, 101, 128, 255, 256, 257, 999, 1000, 1001, 1023, 1024, 1025, 4095, 4096, 5000] if ctx.tier == "thorough" else [1, 60, 91, 95, 100, 101, 256, 999, 1001, 1100, 5000]
+    for L in lengths:
+        name = "n" * L
+        scens.append(Scen(S("top", items=[S(name, items=[T("t", body=["P", "F"])])]))); labels.append(f"suite name of {L} characters")
+        scens.append(Scen(S(name, items=[T("t", body=["P", "F"])]))); labels.append(f"top suite name of {L} characters")
+        scens.append(Scen(S("top", items=[T("t" * L, body=["P", "F"])]))); labels.append(f"test name of {L} characters")
+    for depth in ([1, 5, 50, 99, 100, 101, 120] if ctx.tier == "quick" else [1, 5, 50, 98, 99, 100, 101, 102, 150, 300]):
+        root = S("a", items=[])          # one-character names: the XML reporters' file names grow with the depth (NAME_MAX)
+        cur = root
+        for i in range(1, depth):
+            nxt = S("a", items=[]); cur.items.append(nxt); cur = nxt
+        cur.items.append(T("leaf", body=["P", "F"]))
+        scens.append(Scen(root)); labels.append(f"suites nested {depth} deep")
+    for count in (step - 1, step, step + 1, 2 * step + 1):
+        scens.append(Scen(S("top", items=[T(f"t{i}", body=["P"] if i % 7 else ["F"]) for i in range(count)]))); labels.append(f"{count} tests in one suite")
+    jobs = [(s.text(), r) for s in scens for r in REPORTERS_ALL]
+    obs = bench.run_many(jobs, env=asan_env(), timeout=120)
+    k = 0
+    shown = set()
+    models = run_model_scenarios([s.text() for s in scens])
+    for s, lab, m in zip(scens, labels, models):
+        for rep in REPORTERS_ALL:
+            o = obs[k]; k += 1
+            crashed = o.timeout or (o.rc is not None and (o.rc < 0 or o.rc in (98, 99))) or "ERROR: AddressSanitizer" in o.stderr or "runtime error" in o.stderr
+            if crashed:
+                summary = " ".join(l.strip() for l in o.stderr.split("\n") if "ERROR" in l or "runtime error" in l or "SUMMARY" in l)[:260]
+                where = "text_reporter" if "text_reporter" in o.stderr else "xml_reporter" if "xml_reporter.c" in o.stderr else "libxml_reporter" if "libxml_reporter" in o.stderr else "other"
+                key = (where, lab.split(" of ")[0].split(" nested")[0])
+                if key not in shown:
+                    shown.add(key)
+                    ctx.violation(f"[C20] {lab}, {rep} reporter: undefined behaviour / crash in cgreen itself (exit {o.rc}): {summary}",
+                                  f"# reporter: {rep}   (sanitizer build: harness/scenario_run <file> {rep} <outdir>)\n" + (s.text() if len(s.text()) < 20000 else s.text()[:2000] + "\n# ... truncated"),
+                                  found_input=True, facts={"crash": True, "where": where, "what": key[1], "depth_over_100": "nested" in lab and int(lab.split()[2]) > 100})
+            elif rep in ("text", "cute") and not o.timeout:
+                # results do not change with names / depth / counts
+                e = oracle_C03(s, m, o, rep)
+                if e and ("len", rep) not in shown:
+                    shown.add(("len", rep))
+                    ctx.violation(f"[C20] {lab}, {rep} reporter: results change: {e}", f"# reporter: {rep}\n" + s.text()[:3000], found_input=True, facts={"where": rep})
+    ctx.coverage["correspondence"] = {"cases": nvec + len(jobs), "vector_histories": nvec, "reporter_runs": len(jobs), "disagreements": ndis}
+    ctx.coverage["samples"] = [" ; ".join(blocks[3][:8]) + " ...", labels[0], labels[-1]]
+    ctx.coverage["evaluations"] = nvec + len(jobs)
+    ctx.coverage["distinct_nontrivial"] = nvec + len(scens)
+    ctx.coverage["growth_step"] = step
